@@ -31,7 +31,7 @@ from ..recorder import norm_ev_type
 
 LEVEL = "model_checking"
 RULE = (
-    "(A) BFS to closure of TREE(N) universal machines + INC (assign) and of the ACTOR machine and the ACTORF machine (a child whose machine definition a factory picks from the parent's context) (spawnChild with systemId, "
+    "(A) BFS to closure of TREE(N) universal machines + INC (assign) and of the ACTOR machine (its children reach a top-level final state after two pokes and stay registered where the engine keeps them) and the ACTORF machine (a child whose machine definition a factory picks from the parent's context) (spawnChild with systemId, "
     "sendTo, child with its own states) on both engines; at EVERY reachable state: restore(snapshot) canonically equal, "
     "re-snapshot identical, valid JSON, snapshot dict unchanged after the source runs on, and for every event of the "
     "alphabet step(original) == step(restored) == step(restored twice) on canonical state and action trace; (B) all "
@@ -57,7 +57,7 @@ def kid_machine():
     return create_machine(
         {"id": "kid", "initial": "p", "context": {"n": 0},
          "states": {"p": {"on": {"POKE": {"target": "q", "actions": [A.assign(lambda a: {"n": (a["context"]["n"] + 1) % 2})]}}},
-                    "q": {"on": {"POKE": "p"}}}},
+                    "q": {"on": {"POKE": "f"}}, "f": {"type": "final", "output": {"r": 1}}}},
         logic=MachineLogic(),
     )
 
